@@ -415,7 +415,46 @@ def r6_failed_wait(ctx, fam):
               where=where(f))
 
 
+def r7_disconnect_closes(ctx, fam):
+    """disconnect() always ends the transport: every normal path sends a
+    DISCONNECT for each listed namespace and then closes engine.io - also
+    when no namespace was accepted yet (the failure path of connect()
+    relies on it to leave the client fully disconnected)."""
+    m = ctx.model
+    C = CLIENT[fam]
+    f = m.method(C, 'disconnect')
+    construct = C + '.disconnect'
+    run = run_function(f, m, max_iter=1)
+    n = 0
+    for p in run.paths:
+        if not p.normal:
+            continue
+        n += 1
+        close = [e for e in p.calls('disconnect') if e.recv() == 'self.eio']
+        ctx.check(bool(close), construct, 'every normal path closes the '
+                  'engine.io transport', key='transport-left-open',
+                  reason='disconnect() can return without closing the '
+                  'transport (%s): a failed connect() would leave it open '
+                  'and a late CONNECT from the server would be accepted'
+                  % p.describe()[:120], where=where(f))
+        for e, pk, _ in sends(run, p):
+            lv = run.sym_of(pk.get('namespace')) if pk and \
+                pk.get('namespace') is not None else None
+            ctx.check(pk is not None and pk['type'] == 'DISCONNECT' and
+                      lv is not None and lv['kind'] == 'loopvar' and
+                      U(lv['expr']) == 'self.namespaces' and
+                      (not close or e.idx < close[0].idx), construct,
+                      'a DISCONNECT per listed namespace precedes the close',
+                      key='disconnect-packets', where=where(f, e.node))
+    if not n:
+        ctx.bad(construct, 'no-normal-path', 'disconnect() never returns',
+                where(f))
+
+
 def run(ctx):
+    ctx.rule('C08.R7', 'disconnect() always closes the transport', floor=2)
+    for fam in SA:
+        r7_disconnect_closes(ctx, fam)
     ctx.rule('C08.R1', 'emit: BadNamespaceError before any id generation or '
              'send; send/call only through emit', floor=10)
     for fam in SA:
